@@ -117,7 +117,7 @@ package litefs
 //  * Recover runs after every primary or replica session (role-change recovery).
 // The role invariant storeRoleWF and "not primary" (s.lease == nil) hold at every loop head.
 //@ func (s *Store) monitorLease [C08]
-//@   requires  leaseStoreWF(s) && storeRoleWF(s) && subsWF(s) && s.lease == nil && ctx != nil && metricsInit()
+//@   requires  leaseStoreWF(s) && storeRoleWF(s) && subsWF(s) && s.lease == nil && ctx != nil && metricsInit() && s.dbs != nil
 //@   ghost lcid string = ""
 //@   ghost lcidOK bool = false
 //@   ghost infoOK bool = false
@@ -132,7 +132,7 @@ package litefs
 //@   on call Store.monitorLeaseAsPrimary assert lcidOK && cidCompatible(lcid, s) && arg2 != nil && arg2 == got && s.lease == nil && session == 0 ; then session = 1
 //@   on call Store.monitorLeaseAsReplica assert lcidOK && infoOK && !(lcid != "" && localCID(s) != "" && lcid != localCID(s)) && s.lease == nil && session == 0 ; then session = 1, hid = ret0
 //@   on call Store.Recover assert session == 1 ; then session = 0
-//@   loop 1 invariant leaseStoreWF(s) && storeRoleWF(s) && subsWF(s) && s.lease == nil && hid == handoffLeaseID && session == 0
+//@   loop 1 invariant leaseStoreWF(s) && storeRoleWF(s) && subsWF(s) && s.lease == nil && hid == handoffLeaseID && session == 0 && s.dbs != nil
 //@   ensures   err == nil && s.lease == nil && storeRoleWF(s)
 //@   nopanic
 
@@ -170,10 +170,10 @@ package litefs
 //@   on call Store.setClusterID assert opened && localCID(s) == "" && arg1 == scid && scid != ""
 //@   on call ReadStreamFrame assert opened && infoSet == 1 && scid == localCID(s)
 //@   on call Store.processLTXStreamFrame assert opened && scid == localCID(s)
-//@   loop 1 invariant opened && infoSet == 1 && scid == localCID(s) && s.dbs != nil && leaseStoreWF(s) && storeRoleWF(s) && subsWF(s) && unchanged(s.lease, s.primaryCh, s.candidate)
+//@   loop 1 invariant opened && infoSet == 1 && scid == localCID(s) && s.dbs != nil && leaseStoreWF(s) && storeRoleWF(s) && subsWF(s) && unchanged(s.lease, s.primaryCh, s.candidate, s.dbs)
 //@   ensures   infoSet == 0 || infoSet == 2
 //@   ensures   handoffLeaseID != "" ==> err == nil && opened && scid == localCID(s)
-//@   ensures   leaseStoreWF(s) && storeRoleWF(s) && subsWF(s) && unchanged(s.lease, s.primaryCh, s.candidate)
+//@   ensures   leaseStoreWF(s) && storeRoleWF(s) && subsWF(s) && unchanged(s.lease, s.primaryCh, s.candidate, s.dbs)
 
 //@ func (s *Store) setPrimaryInfo [C08]
 //@   requires  s != nil
@@ -230,7 +230,7 @@ package litefs
 //@   ensures   handed ==> err == nil
 //@   ensures   lastRenew == 2 ==> err == ErrLeaseExpired
 //@   ensures   stage == 0 ==> err != nil
-//@   ensures   leaseStoreWF(s) && storeRoleWF(s) && subsWF(s) && s.lease == nil && unchanged(s.candidate)
+//@   ensures   leaseStoreWF(s) && storeRoleWF(s) && subsWF(s) && s.lease == nil && unchanged(s.candidate, s.dbs)
 //@   nopanic
 
 // the primary-scoped context watches the store's current primary channel
